@@ -78,6 +78,25 @@ func c03sLine(c *Ctx, in string) {
 		a.AddRequest(agent.Job{Command: agent.COMMAND_CHECKIN, RequestID: uint32(r64)})
 		req = demonRequest(uint32(id64), a.Encryption.AESKey, a.Encryption.AESIv,
 			[]dpkg{{cmd: agent.COMMAND_CHECKIN, req: uint32(r64), body: unhx(parts[4])}})
+	case "sdie": // sdie <id> exit|mark: the session goes inactive - the agent reports that it exits, or an operator marks it dead
+		a := w.ts.AgentInstance(int(id64))
+		if a == nil {
+			c.Emit("%s => NOAGENT sessions=%s", in, sessObs(w))
+			return
+		}
+		if parts[2] == "mark" {
+			out := guard(func() string {
+				a.Active = false
+				a.Reason = "marked dead"
+				w.ts.AgentUpdate(a)
+				return "ok sessions=" + sessObs(w)
+			})
+			c.Emit("%s => %s", in, out)
+			return
+		}
+		a.AddRequest(agent.Job{Command: agent.COMMAND_EXIT, RequestID: 0x0e17})
+		req = demonRequest(uint32(id64), a.Encryption.AESKey, a.Encryption.AESIv,
+			[]dpkg{{cmd: agent.COMMAND_EXIT, req: 0x0e17, body: be32b(1)}})
 	default:
 		panic("C03: unknown session op " + parts[0])
 	}
@@ -179,6 +198,11 @@ func genSessionCase(c *Ctx) {
 			}
 			c03sLine(c, fmt.Sprintf("sraw %08x %s %s", id, hx(ks), hx(buf)))
 		case k < 8:
+			if r.Chance(1, 2) { // the session dies (agent exit / operator mark); the same id may come back with DEMON_INIT later
+				c.Count("sdie")
+				c03sLine(c, fmt.Sprintf("sdie %08x %s", gen.Pick(r, regs).id, gen.Pick(r, []string{"exit", "mark"})))
+				continue
+			}
 			c.Count("sget")
 			c03sLine(c, fmt.Sprintf("sget %08x", gen.Pick(r, regs).id))
 		default: // COMMAND_CHECKIN callback with fresh metadata (same or different inner id / keys)
